@@ -1,0 +1,93 @@
+//go:build verif
+
+// Contracts for package fzf (src), read by the gowp verification-condition
+// generator (/verif). This file contains comments only: it adds no symbol and
+// does not change the compiled program with the build tag on or off.
+
+package fzf
+
+// ---------------------------------------------------------------- chunks
+// A chunk list is valid when no chunk pointer is nil, counts are within 0..chunkSize, and every chunk
+// except the first (which --tail may have trimmed) and the last (still filling) is full.
+//@ spec func validChunks(cs []*Chunk) bool = forall(k, 0, len(cs), cs[k] != nil && 0 <= cs[k].count && cs[k].count <= 100) && forall(k, 1, len(cs) - 1, cs[k].count == 100) && (len(cs) >= 2 ==> cs[0].count >= 1)
+// sumc(cs, i): number of items in the first i chunks
+//@ spec func sumc(cs []*Chunk, i int) int = i <= 0 ? 0 : sumc(cs, i - 1) + cs[i - 1].count decreases i
+
+//@ lemma sumc_mid(cs []*Chunk, j int) induction j
+//@ property C04 C06
+//@ requires 1 <= j && j <= len(cs) - 1 && forall(k, 1, len(cs) - 1, cs[k].count == 100)
+//@ ensures sumc(cs, j) == cs[0].count + 100 * (j - 1)
+
+//@ func CountItems
+//@ property C04 C06
+//@ requires validChunks(cs)
+//@ ensures result == sumc(cs, len(cs))
+//@ use sumc_mid(cs, len(cs) - 1)
+
+// nthItem(cs, k, p): address of the p-th item counted from chunk k on, in chunk-concatenation order
+//@ spec func nthItem(cs []*Chunk, k int, p int) *Item = p < cs[k].count ? &cs[k].items[p] : nthItem(cs, k + 1, p - cs[k].count) decreases len(cs) - k
+
+//@ lemma nth_full(cs []*Chunk, k int, j int, p int) induction j
+//@ property C04 C06
+//@ requires 0 <= k && 0 <= j && k + j <= len(cs) && forall(i, k, k + j, cs[i].count == 100) && p >= 100 * j
+//@ ensures nthItem(cs, k, p) == nthItem(cs, k + j, p - 100 * j)
+
+// sumlen(ls, i): total length of the first i result lists; nthRes: p-th result in list-concatenation order
+//@ spec func sumlen(ls [][]Result, i int) int = i <= 0 ? 0 : sumlen(ls, i - 1) + len(ls[i - 1]) decreases i
+
+//@ func Merger.Length
+//@ property C04
+//@ requires mg != nil
+//@ ensures result == mg.count
+
+// Pass-through (no query / --no-sort without pattern): the idx-th result is the item at flat position idx
+// (counted from the end under --tac) of the chunk list, whatever the size of the first chunk.
+//@ func Merger.Get
+//@ property C04 C06
+//@ deadreturns 1
+//@ note the sorted branch (mergedGet) is excluded by the precondition !mg.sorted here
+//@ requires mg != nil && 0 <= idx && idx < mg.count && !mg.sorted
+//@ requires mg.chunks != nil ==> len(*mg.chunks) >= 1 && validChunks(*mg.chunks) && mg.count == sumc(*mg.chunks, len(*mg.chunks))
+//@ requires mg.chunks == nil ==> mg.count == sumlen(mg.lists, len(mg.lists))
+//@ ensures mg.chunks != nil ==> result.item == nthItem(*mg.chunks, 0, mg.tac ? mg.count - 1 - idx : idx)
+//@ use @"firstChunk := (*mg.chunks)[0]" sumc_mid(*mg.chunks, len(*mg.chunks) - 1)
+//@ use @"chunk := (*mg.chunks)[idx/chunkSize+1]" nth_full(*mg.chunks, 1, idx / 100, idx)
+//@ use @"chunk := (*mg.chunks)[idx/chunkSize]" nth_full(*mg.chunks, 0, idx / 100, idx)
+//@ loop 1
+//@   invariant 0 <= idx && idx < mg.count - sumlen(mg.lists, iter) && mg.chunks == nil
+
+// ---------------------------------------------------------------- ranks
+// The sort key of a result: the four criteria slots read as one number, most significant slot last.
+//@ spec func rankKey(r Result) int = r.points[0] + 65536 * r.points[1] + 4294967296 * r.points[2] + 281474976710656 * r.points[3]
+// compareRanks is the lexicographic order on (key, item index), the index order reversed under --tac.
+//@ spec func rankLE(a Result, b Result, tac bool) bool = rankKey(a) < rankKey(b) || (rankKey(a) == rankKey(b) && ((a.item.text.Index <= b.item.text.Index) != tac))
+
+//@ func Item.Index
+//@ property C04
+//@ requires item != nil
+//@ ensures result == item.text.Index
+
+//@ func compareRanks
+//@ property C04
+//@ requires irank.item != nil && jrank.item != nil
+//@ ensures result == rankLE(irank, jrank, tac)
+//@ loop 1
+//@   invariant -1 <= idx && idx <= 3 && forall(k, idx + 1, 4, irank.points[k] == jrank.points[k])
+//@   decreases idx + 1
+
+// ---------------------------------------------------------------- merger
+// consumed(l): how many results of list l have been moved to mg.merged (-1 marks an exhausted list)
+//@ spec func consumed(ls [][]Result, cur []int, l int) int = cur[l] < 0 ? len(ls[l]) : cur[l]
+//@ spec func sumcons(ls [][]Result, cur []int, i int) int = i <= 0 ? 0 : sumcons(ls, cur, i - 1) + consumed(ls, cur, i - 1) decreases i
+//@ spec func mergerInv(mg *Merger) bool = len(mg.cursors) == len(mg.lists) && forall(l, 0, len(mg.lists), mg.cursors[l] == -1 || (0 <= mg.cursors[l] && mg.cursors[l] <= len(mg.lists[l]))) && len(mg.merged) == sumcons(mg.lists, mg.cursors, len(mg.lists)) && mg.count == sumlen(mg.lists, len(mg.lists))
+
+//@ func minRank
+//@ property C04
+//@ ensures result.item != nil
+
+// NOTE: not proved yet - the contract below is assumed where mergedGet is called (listed in the trusted base).
+//@ func Merger.mergedGet trusted
+//@ requires mg != nil && mergerInv(mg) && 0 <= idx && idx < mg.count
+//@ modifies mg.merged, mg.cursors[*], mg.merged[len(mg.merged):cap(mg.merged)]
+//@ ensures mergerInv(mg) && idx < len(mg.merged) && result == mg.merged[idx]
+//@ ensures forall(k, 0, old(len(mg.merged)), mg.merged[k] == old(mg.merged[k]))
